@@ -91,6 +91,8 @@ def expr_coq(n):
         return f'(UnaryOp {t} {expr_coq(n.operand)})'
     if isinstance(n, ast.BoolOp) and t in BOOLOPS:
         return f'(BoolOp {t} {clist([expr_coq(a) for a in n.args])})'
+    if isinstance(n, ast.Placeholder):
+        return f'(Placeholder {cstr(n.name or "")})'
     raise Unsupported(t)
 
 
@@ -108,6 +110,8 @@ def expr_canon(n):
         return [4, UNOPS.index(t), expr_canon(n.operand)]
     if isinstance(n, ast.BoolOp) and t in BOOLOPS:
         return [5, BOOLOPS.index(t), [expr_canon(a) for a in n.args]]
+    if isinstance(n, ast.Placeholder):
+        return [6, [ord(c) for c in (n.name or '')]]
     return ['unsupported', t, repr(n)]
 
 
@@ -192,12 +196,22 @@ def stmt_input_coq(n):
     return f'(mkJournal {copt(n.account, cstr)} {copt(n.summary_func, cstr)} {copt(n.from_clause, from_coq)})'
 
 
+def clauses_shared(n, s):
+    """the Select carries the caller's FROM (and WHERE) NODES, not equal copies"""
+    ok = s.from_clause is n.from_clause
+    if isinstance(n, ast.Balances):
+        ok = ok and s.where_clause is n.where_clause
+    return ok
+
+
 def real_transform(n):
     """-> canonical tresult of the implementation: [0, select] or [1] (ParseError)."""
     try:
         s = compiler.transform_balances(n) if isinstance(n, ast.Balances) else compiler.transform_journal(n)
     except beanquery.ParseError:
         return [1]
+    if not clauses_shared(n, s):
+        return [0, select_canon(s), 'clauses-copied-not-shared']
     return [0, select_canon(s)]
 
 
@@ -238,8 +252,9 @@ def sentinel_statements():
     froms = [None,
              S.From(fexpr, None, None, None),
              S.From(None, datetime.date(2020, 1, 1), datetime.date(2021, 1, 1), True),
-             S.From(S.Not(S.IsNull(S.Column('payee'))), datetime.date(2020, 1, 1), True, None)]
-    wheres = [None, wexpr]
+             S.From(S.Not(S.IsNull(S.Column('payee'))), datetime.date(2020, 1, 1), True, None),
+             S.From(S.Equal(S.Column('year'), S.Placeholder('')), None, None, None)]
+    wheres = [None, wexpr, S.Match(S.Column('account'), S.Placeholder('pat'))]
     summaries = [None, 'units', 'cost']
     accounts = [None, 'Assets', 'A.*:(Cash|Bank)$', 'x" OR account ~ "', 'a"b', "it's", '']
     bal = [S.Balances(f, fr, wh) for f in summaries for fr in froms for wh in wheres]
@@ -249,9 +264,13 @@ def sentinel_statements():
 
 def generate():
     bal, jou = sentinel_statements()
+    shared = []
+
     def case(fn, node):
         try:
-            return f'TOk {select_coq(fn(node))}'
+            sel = fn(node)
+            shared.append(clauses_shared(node, sel))
+            return f'TOk {select_coq(sel)}'
         except beanquery.ParseError:
             return 'TParseError'
     bal_out = [case(compiler.transform_balances, b) for b in bal]
@@ -274,6 +293,8 @@ def generate():
         'Definition balances_cases : list tresult := ' + clist(bal_out) + '.',
         'Definition journal_inputs : list journal := ' + clist([stmt_input_coq(j) for j in jou]) + '.',
         'Definition journal_cases : list tresult := ' + clist(jou_out) + '.',
+        '(* result.from_clause is statement.from_clause (and where_clause for BALANCES) on every sentinel *)',
+        'Definition clauses_shared : bool := ' + cbool(bool(shared) and all(shared)) + '.',
         '',
     ]
     changed = core.write_if_changed(os.path.join(core.COQ, 'Gen', 'Templates.v'), '\n'.join(lines))
@@ -584,6 +605,43 @@ PATTERNS = [
 ]
 
 
+# statements carrying query parameters (positional %s are numbered by node identity in Compiler.compile);
+# values are int / str only (JSON-safe for replay files).  ('named', ((k, v), ...)) = a dict of parameters
+BALANCES_PARAM = [
+    (None, 'account ~ %s', ('Expenses',)),
+    ('year = %s', None, (2020,)),
+    ('year = %s', 'account ~ %s', (2020, 'Assets')),
+    ('year >= %s AND month < %s', 'currency = %s', (2020, 7, 'USD')),
+    ('year = %s OPEN ON 2020-01-01 CLOSE', 'number > %s', (2020, 5)),
+    ('year = %(y)s', 'account ~ %(a)s AND number > %(n)s', ('named', (('a', 'Assets'), ('n', 1), ('y', 2020)))),
+    (None, 'account ~ %(a)s OR account ~ %(a)s', ('named', (('a', 'Food'),))),
+    ('year = %s', None, ()),                      # too few parameters: same error on both sides
+    ('year = %s', 'account ~ %(a)s', (2020,)),    # mixed styles: same error on both sides
+]
+JOURNAL_PARAM = [
+    ('Food', 'year = %s', (2020,)),
+    ('Assets', 'year = %(y)s', ('named', (('y', 2020),))),
+    ('Cash', 'year >= %s AND month < %s', (2019, 7)),
+    (None, 'year = %s', (2021,)),
+    ('a"b', 'year = %s', (2020,)),
+    ('A.*:C', "year = %s AND narration ~ %s", (2020, 'a')),
+    ('Food', 'year = %s OPEN ON 2020-01-01 CLOSE ON 2021-01-01', (2020,)),
+    ('Food', 'year = %s', ()),
+]
+
+
+def params_py(params):
+    """spec form -> what Connection.execute takes"""
+    params = tuple(params) if isinstance(params, list) else params
+    if len(params) == 2 and params[0] == 'named':
+        return {k: v for k, v in params[1]}
+    return tuple(params)
+
+
+def params_kind(params):
+    return 'named' if len(params) == 2 and params[0] == 'named' else f'positional{len(params)}'
+
+
 def quote_bql(s):
     if "'" not in s:
         return "'" + s + "'"
@@ -627,8 +685,17 @@ def parse_where(wh):
     return None if wh is None else parser.parse('SELECT 1 WHERE ' + wh).where_clause
 
 
+def _hashable(x):
+    return tuple(_hashable(i) for i in x) if isinstance(x, (list, tuple)) else x
+
+
 def build_node(spec):
-    """spec = ('B', via, f, fr, wh) | ('J', via, p, f, fr); via = 'text' | 'api' -> ast node"""
+    """spec = ('B', via, f, fr, wh) | ('J', via, p, f, fr); via = 'text' | 'api' -> ast node
+    ('BP', f, fr, wh, params) | ('JP', p, f, fr, params): parsed text with placeholders"""
+    if spec[0] == 'BP':
+        return parser.parse(balances_text(spec[1], spec[2], spec[3]))
+    if spec[0] == 'JP':
+        return parser.parse(journal_text(spec[1], spec[2], spec[3]))
     if spec[0] == 'B':
         _, via, f, fr, wh = spec
         if via == 'text':
@@ -645,6 +712,12 @@ def gen_spec(rng):
     r = rng.random()
     f = (rng.choice(SUMMARY_TEXT) if r < 0.7 else rng.choice(SUMMARY_EXTRA) if r < 0.9 else rng.choice(SUMMARY_API))
     via = 'api' if f in SUMMARY_API or rng.random() < 0.25 else 'text'
+    if f in SUMMARY_TEXT and rng.random() < 0.12:
+        if rng.random() < 0.5:
+            fr_, wh_, pa = rng.choice(BALANCES_PARAM)
+            return ('BP', f, fr_, wh_, pa)
+        p_, fr_, pa = rng.choice(JOURNAL_PARAM)
+        return ('JP', p_, f, fr_, pa)
     fr = rng.choice(FROM_TEXT) if rng.random() < 0.7 else None
     if rng.random() < 0.5:
         wh = rng.choice(WHERE_TEXT) if rng.random() < 0.6 else None
@@ -657,6 +730,9 @@ def gen_spec(rng):
 
 
 def spec_class(spec):
+    if spec[0] in ('BP', 'JP'):
+        f = spec[1] if spec[0] == 'BP' else spec[2]
+        return f'{spec[0]}:f={"none" if f is None else f.lower()}:params={params_kind(_hashable(spec[4]))}'
     if spec[0] == 'B':
         return f'B:{spec[1]}:f={"none" if spec[2] is None else spec[2].lower() if spec[2] else "empty"}:' \
                f'from={"y" if spec[3] else "n"}:where={"y" if spec[4] else "n"}'
@@ -694,6 +770,9 @@ def run_transform(n_cases, rng, cov):
                 specs.append(('B', 'text', f, fr, wh))
             for p in (None, 'Assets', 'A.*:(Cash|Bank)$', 'a"b', "it's", ''):
                 specs.append(('J', 'text', p, f, fr))
+    for f in (None, 'units', 'cost'):
+        specs += [('BP', f, fr, wh, pa) for fr, wh, pa in BALANCES_PARAM]
+        specs += [('JP', p, f, fr, pa) for p, fr, pa in JOURNAL_PARAM]
     for f in SUMMARY_API:
         specs.append(('B', 'api', f, None, None))
         for p in PATTERNS:
@@ -723,6 +802,15 @@ def run_transform(n_cases, rng, cov):
     nontrivial = set()
     for (spec, _, got), m in zip(cases, model):
         nontrivial.add(repr(got))
+        if len(got) == 3:
+            if not any(v_.kind == 'transform-clauses-copied' for v_ in violations):
+                violations.append(core.Violation(
+                    'transform-clauses-copied',
+                    f'transform of {spec!r}: the SELECT carries copies of the statement\'s FROM/WHERE nodes, not the nodes '
+                    'themselves (positional placeholders are numbered by node identity)',
+                    {'kind': 'transform', 'spec': list(spec), 'impl': got, 'model': m},
+                    signature='transform-clauses-copied'))
+            got = got[:2]
         if got != m and len(violations) < 3:
             violations.append(core.Violation(
                 'transform-mismatch',
@@ -840,7 +928,27 @@ def check_ledger_statements(args):
     for spec in specs:
         rec = {'spec': list(spec), 'problems': []}
         try:
-            if spec[0] == 'B':
+            if spec[0] in ('BP', 'JP'):
+                params = params_py(spec[4])
+                if spec[0] == 'BP':
+                    _, f, fr, wh, _ = spec
+                    q = balances_text(f, fr, wh)
+                    sel = balances_select_text(f.lower() if f else f, fr, wh)
+                    tag = 'balances-vs-select'
+                else:
+                    _, p, f, fr, _ = spec
+                    q = journal_text(p, f, fr)
+                    sel = journal_select_text(None, f.lower() if f else f, fr) + (f' WHERE account ~ {quote_bql(p)}' if p else '')
+                    tag = 'journal-vs-select'
+                a = run_query(conn, q, params)
+                b = run_query(conn, sel, params)
+                why = same_result(a, b)
+                if why:
+                    rec['problems'].append((tag, f'with parameters {params!r}: {why}'))
+                rec['status'] = a[0] if a[0] == 'ok' else a[1]
+                rec['rows'] = len(a[2]) if a[0] == 'ok' else None
+                rec['with_params'] = True
+            elif spec[0] == 'B':
                 _, via, f, fr, wh = spec
                 node = build_node(spec)
                 a = run_query(conn, node if via == 'api' else balances_text(f, fr, wh))
@@ -914,6 +1022,11 @@ def ledger_specs(rng, n, thorough, idx=0):
             continue
         specs.append(('J', 'api' if (p is not None and quote_bql(p) is None) else 'text', p, rng.choice([None, 'units', 'cost']),
                       rng.choice([None, 'year = 2020'])))
+    fs = [None, 'units', 'cost']
+    for k, (fr, wh, pa) in enumerate(BALANCES_PARAM):
+        specs.append(('BP', fs[(k + idx) % 3], fr, wh, pa))
+    for k, (p, fr, pa) in enumerate(JOURNAL_PARAM):
+        specs.append(('JP', p, fs[(k + idx + 1) % 3], fr, pa))
     while len(specs) < n:
         specs.append(gen_spec(rng))
     seen, out = set(), []
@@ -1227,7 +1340,7 @@ def _with_ledger(text, fn):
 
 
 def stmt_fails(text, spec, kind):
-    recs = _with_ledger(text, lambda path: check_ledger_statements((path, [tuple(spec)])))
+    recs = _with_ledger(text, lambda path: check_ledger_statements((path, [_hashable(spec)])))
     if kind == 'balances-order':
         keys = [tuple(k) for k in recs[0].get('keys') or []]
         return keys != sorted(keys)
@@ -1255,7 +1368,7 @@ def replay(rec):
     """True = the property holds on this input."""
     kind = rec['kind']
     if kind == 'transform':
-        spec = tuple(rec['spec'])
+        spec = _hashable(rec['spec'])
         node = build_node(spec)
         m = core.coq_eval(f'c14r_{os.getpid()}', ['Base.PyValue', 'Model.Statements'], [f'o_tresult {stmt_coq(node)}'])[0]
         return real_transform(node) == m
@@ -1317,15 +1430,16 @@ def run(tier, rng):
     results = core.pmap(check_ledger_statements, jobs, chunksize=1)
     texts = dict(ledgers)
     status_hist, class_hist, kinds = {}, {}, {}
-    n_b = n_oracle = n_rows = 0
+    n_b = n_oracle = n_rows = n_params = 0
     key_lists = []
     for (path, _), recs in zip(jobs, results):
         for r in recs:
             n_b += 1
-            spec = tuple(r['spec'])
+            spec = _hashable(r['spec'])
             status_hist[r.get('status')] = status_hist.get(r.get('status'), 0) + 1
             class_hist[spec_class(spec)] = class_hist.get(spec_class(spec), 0) + 1
             n_oracle += 1 if r.get('oracle') else 0
+            n_params += 1 if r.get('with_params') else 0
             n_rows += r.get('rows') or 0
             if r.get('keys') is not None:
                 key_lists.append((path, spec, r['keys']))
@@ -1347,7 +1461,7 @@ def run(tier, rng):
             kind, f'{kind}: {spec!r}: {why[:600]} ({len(items)} statements)',
             {'kind': 'stmt', 'problem': kind, 'spec': list(spec), 'ledger': text, 'why': why},
             signature=f'{kind}:{spec_class(spec)}'))
-    cov['B_statements'] = {'statements': n_b, 'rows_compared': n_rows, 'oracle_checked': n_oracle,
+    cov['B_statements'] = {'statements': n_b, 'rows_compared': n_rows, 'oracle_checked': n_oracle, 'executed_with_query_parameters': n_params,
                            'balances_order_checked': len(key_lists),
                            'status_histogram': {str(k): v_ for k, v_ in sorted(status_hist.items(), key=str)},
                            'class_histogram_size': len(class_hist),
